@@ -1206,6 +1206,158 @@ def eval_redfield(case):
 
 
 # ---------------------------------------------------------------------------------------------
+# field-driven propagation (Efield= real array sampled on the time axis, Trdip= dipole operator)
+# ---------------------------------------------------------------------------------------------
+FIELD_KINDS = ("const+", "const-", "zero", "pulse", "step")
+FIELD_AMP = 0.10          # |mu E| * dt of the strongest dipole element (dimensionless per step)
+FIELD_DIPS = ("ladder", "single")
+
+
+def field_dipole(d, pattern):
+    """Transition dipole operator data (d, d, 3): real symmetric x component between the lowest
+    level and the others (the documented convention of the array-field routes: the field is
+    x polarised); y and z components vanish."""
+    mu = numpy.zeros((d, d, 3))
+    if pattern == "ladder":
+        for j in range(1, d):
+            mu[0, j, 0] = mu[j, 0, 0] = 1.0 / j
+    elif pattern == "single":
+        mu[0, d - 1, 0] = mu[d - 1, 0, 0] = 1.0
+    else:
+        raise isolation.HarnessError("dipole pattern " + str(pattern))
+    return mu
+
+
+def field_samples(kind, Nt, dt, amp):
+    """Real field sampled at the points of the time axis."""
+    i = numpy.arange(Nt, dtype=float)
+    if kind == "const+":
+        return numpy.full(Nt, amp)
+    if kind == "const-":
+        return numpy.full(Nt, -0.6 * amp)
+    if kind == "zero":
+        return numpy.zeros(Nt)
+    if kind == "pulse":
+        return amp * numpy.exp(-((i - 0.4 * Nt) / (0.12 * Nt)) ** 2)
+    if kind == "step":
+        return numpy.where(i <= Nt // 2, amp, -0.5 * amp)
+    raise isolation.HarnessError("field kind " + str(kind))
+
+
+def _field_tag(case):
+    return "field/%s/%s/field=%s" % (case["gen_kind"], case["form"], case["field"])
+
+
+def eval_field(case):
+    """Section field: ReducedDensityMatrixPropagator(ta, ham, RTensor=..., Efield=array, Trdip=D).
+    Every route that is implemented must keep trace and Hermiticity at every stored time
+    (class R) for every field; with a Lindblad generator and a field that is constant in time
+    the generator is the constant GKSL generator of H - mu_x E (documented x polarisation, sign
+    decided by the harness self-test on the unchanged scheme definition: the generator the
+    docstring names), so positivity and the exact exponential apply with the usual truncation
+    bound; a vanishing field must reproduce the field-free propagation."""
+    qr = isolation.qr()
+    from quantarhei.qm import ReducedDensityMatrixPropagator, ReducedDensityMatrix
+    from quantarhei.qm import TransitionDipoleMoment
+    book = Book()
+    tag = _field_tag(case)
+    Nt, dt = case["axis"]
+    order = case["order"]
+    kind = case["field"]
+    if case["gen_kind"] == "lindblad":
+        m = model(case)
+        d = m["d"]
+        ham = lib_hamiltonian(m, case)
+        tensor = _lib_lindblad(m, case, ham)
+    else:
+        from quantarhei.qm import RedfieldRelaxationTensor, TDRedfieldRelaxationTensor
+        n = case["nsites"]
+        d = n + 1
+        td = case["gen_kind"] == "redfield-td"
+        en = REDFIELD_SYS[n]["low"]
+        J = systems.chain_J(n, 60.0) if n == 2 else systems.full_J(n, [60.0, -40.0, 25.0])
+        bath = {"reorg": 30.0, "cortime": 60.0, "T": 300.0}
+        tb = qr.TimeAxis(0.0, 10 * Nt, dt / 10.0) if td else qr.TimeAxis(0.0, 300, 1.0)
+        ham, sbi = systems.ham_sbi(en, J, bath, tb)
+        cls = TDRedfieldRelaxationTensor if td else RedfieldRelaxationTensor
+        tensor = cls(ham, sbi, as_operators=(case["form"] == "operators"))
+        m = None
+    mu = field_dipole(d, case["dip"])
+    amp = FIELD_AMP / dt
+    E = field_samples(kind, Nt, dt, amp)
+    ta = qr.TimeAxis(0.0, Nt, dt)
+    labels, psis, rhos = _states(case, d)
+    vecs0 = [r.reshape(-1) for r in rhos]
+    ref = None
+    if m is not None and kind in ("const+", "const-", "zero"):
+        m2 = dict(m)
+        m2["H"] = m["H"] - mu[:, :, 0] * E[0]
+        ref = reference(case, m2, vecs0, None)
+    digest = []
+    for k, lab in enumerate(labels):
+        rho0 = rhos[k]
+        E_in = numpy.array(E, copy=True)
+        mu_op = TransitionDipoleMoment(data=numpy.array(mu, copy=True))
+        pr = ReducedDensityMatrixPropagator(ta, ham, RTensor=tensor, Efield=E_in, Trdip=mu_op)
+        rho = ReducedDensityMatrix(data=numpy.array(rho0, dtype=complex))
+        try:
+            ev = pr.propagate(rho, method="short-exp-%d" % order, Nref=case["nref"])
+        except Exception as e:
+            if "refined time-step" in str(e) and case["nref"] != 1:
+                return {"nontrivial": False, "outcome": "refused:refinement-with-field",
+                        "violations": [], "info": {"unbuildable": "field-refinement-refused",
+                                                   "sec": "field"}}
+            raise
+        if ev is None:
+            # route not implemented in the package (stub returning None): nothing is handed out
+            return {"nontrivial": False, "outcome": "unimplemented:" + tag, "violations": [],
+                    "info": {"unbuildable": "field-route-not-implemented:%s/%s"
+                             % (case["gen_kind"], case["form"]), "sec": "field"}}
+        raw = numpy.array(ev.data, copy=True)
+        _validity(book, tag, lab, raw)
+        if not numpy.array_equal(E_in, E):
+            book.check("field-input", "field-array-changed/" + tag, [1.0], 0.0,
+                       "the field array handed to the propagator was modified by propagate()")
+        if not numpy.all(numpy.isfinite(raw)):
+            continue
+        he0 = float(numpy.max(numpy.abs(raw[0] - rho0)))
+        book.check("initial", "initial-state-not-stored/" + tag, [he0], RTOL,
+                   "state stored at index 0 differs from the initial state (state %s)" % lab)
+        if ref is not None:
+            n0 = float(numpy.linalg.norm(rho0))
+            b = ref["b"]
+            inform = bool(b[-1] <= INFORMATIVE)
+            tolT = 2.0 * b * n0 + RTOL
+            ex = ref["exact"][:, :, k].reshape(Nt, d, d)
+            book.check("field-exact", "exact/" + tag, _fro(raw - ex), tolT,
+                       "states propagated under a constant field differ from exp(L t) rho0 of the "
+                       "GKSL generator with the Hamiltonian H - mu_x E by more than the truncation "
+                       "bound (state %s, order %d, generator %s)" % (lab, order, case["gen"]),
+                       {"state": lab}, informative=inform)
+            mine = numpy.array([G.min_eigenvalue(x) for x in raw])
+            book.check("field-positivity", "positivity/" + tag, numpy.maximum(-mine, 0.0), tolT,
+                       "stored state has a negative eigenvalue beyond the truncation bound "
+                       "(state %s, order %d, generator %s)" % (lab, order, case["gen"]),
+                       {"state": lab}, informative=inform)
+            if kind == "zero":
+                pr0 = ReducedDensityMatrixPropagator(ta, ham, RTensor=tensor)
+                ev0 = pr0.propagate(ReducedDensityMatrix(data=numpy.array(rho0, dtype=complex)),
+                                    method="short-exp-%d" % order, Nref=1)
+                book.check("field-zero", "zero-field-differs-from-field-free/" + tag,
+                           _fro(raw - numpy.array(ev0.data)), 2.0 * tolT,
+                           "propagation with a vanishing field differs from the propagation "
+                           "without field by more than both truncation allowances (state %s)" % lab,
+                           {"state": lab}, informative=inform)
+        if k < 3:
+            digest.append(_digest(raw))
+    inform = True if ref is None else bool(ref["b"][-1] <= INFORMATIVE)
+    return {"nontrivial": inform, "outcome": [tag, case.get("gen", case.get("nsites")), order,
+                                               case["dip"], digest],
+            "violations": book.violations(), "n": len(labels) - 1,
+            "info": {"worst": book.worst, "sec": "field", "informative": inform}}
+
+
+# ---------------------------------------------------------------------------------------------
 # history of the pure dephasing of ONE propagator object
 # ---------------------------------------------------------------------------------------------
 DEPH_TYPES = ("Lorentzian", "Gaussian")
@@ -1432,6 +1584,8 @@ def eval_case(case):
         return eval_lindblad(case)
     if sec == "redfield":
         return eval_redfield(case)
+    if sec == "field":
+        return eval_field(case)
     raise isolation.HarnessError("unknown section %r" % sec)
 
 
@@ -1625,6 +1779,30 @@ def cases(tier):
         # TI operator form + secularize silently converts to a tensor: same as "secular"
         return not (c["form"] == "operators-secular" and not c["td"])
     cs += product(dom, ok_red)
+    # ---- field-driven propagation (array field + dipole operator) ---------------------------------
+    def ok_field(c):
+        return c["ham"] in HMATS[c["dim"]]
+    for d, gens in ((2, ["01", "01+10", "S01"]), (3, ["12", "12+21", "10+02", "S12"]),
+                    (4, ["12+21", "13+S12"])):
+        if quick and d == 4:
+            continue
+        dom = {"sec": ["field"], "gen_kind": ["lindblad"], "dim": [d],
+               "ham": ["coupled", "cross"] if d > 2 else ["coupled", "degenerate"],
+               "scale": [0.5] if quick else [0.5, 0.25], "axis": [AX_SHORT],
+               "gen": gens[:2] if quick else gens,
+               "form": ["tensor", "converted", "operators"],
+               "field": list(FIELD_KINDS), "dip": list(FIELD_DIPS) if not quick else ["ladder"],
+               "order": ORDERS, "nref": [1], "mix": [False], "rwa": ["off"], "pdeph": ["none"]}
+        cs += product(dom, ok_field)
+    dom = {"sec": ["field"], "gen_kind": ["redfield-ti", "redfield-td"],
+           "nsites": [2] if quick else [2, 3], "form": ["tensor", "operators"], "axis": [AX_SHORT],
+           "field": ["const+", "pulse"] if quick else list(FIELD_KINDS),
+           "dip": ["ladder"] if quick else list(FIELD_DIPS),
+           "order": [4] if quick else ORDERS, "nref": [1], "mix": [False]}
+    cs += product(dom, None)
+    cs.append({"sec": "field", "gen_kind": "lindblad", "dim": 2, "ham": "coupled", "scale": 0.5,
+               "axis": AX_SHORT, "gen": "01", "form": "tensor", "field": "const+", "dip": "ladder",
+               "order": 4, "nref": 2, "mix": False, "rwa": "off", "pdeph": "none"})
     return cs
 
 
@@ -1667,6 +1845,16 @@ def run(run):
                 "force at that run (exact solution in the frame of the calculation and in the "
                 "laboratory frame, trace, Hermiticity, positivity, flags); next to every run after "
                 "the last change the same generator on a fresh propagator.  "
+                "Field-driven propagation (sec field): propagator built with Efield=real array "
+                "on the time axis and Trdip=dipole operator x generator kind {Lindblad sets, "
+                "Redfield, time-dependent Redfield} x representation {tensor, converted, operators} "
+                "x field %r x dipole pattern %r x order; every implemented route: trace, "
+                "Hermiticity, initial state stored, field array untouched for ALL spanning states; "
+                "Lindblad generator with a field constant in time: positivity and the exact "
+                "exponential of the GKSL generator with Hamiltonian H - mu_x E within the "
+                "truncation bound; vanishing field = field-free propagation; routes the package "
+                "does not implement (stubs returning None) and the refused refinement are "
+                "counted.  "
                 "RWA cases are in the product only "
                 "when [L, ad_Omega] = 0 (rotating-frame calculation is exact).  non-trivial = the "
                 "generator acts (coupling or >= 2 distinct energies for closed systems, a non-zero "
@@ -1674,7 +1862,7 @@ def run(run):
                 "time is <= %g (so the T-class oracle discriminates); Redfield cases (class R "
                 "clauses only) are all non-trivial; unbuildable configurations are trivial"
                 % (SV_MODULI, SV_PHASES, sorted(RWA_BLOCKS), ctx_sites_domain(), list(BCTX),
-                   hist_settings(), INFORMATIVE))
+                   hist_settings(), list(FIELD_KINDS), list(FIELD_DIPS), INFORMATIVE))
     run.assumptions = [
         "reference: GKSL Liouvillian from Kronecker products, scipy.linalg.expm "
         "(mc/refmodels/gksl.py); Gaussian dephasing reference = 4th order Magnus, 4 sub-steps, own "
@@ -1726,6 +1914,12 @@ def run(run):
         "Nref, order and time axis are the same for all runs of a history (Nref is a documented "
         "sticky setting of the object).  Only the time independent tensor routes (operator and "
         "tensor form) apply PureDephasing at all",
+        "field-driven propagation: the generator of a constant field is the one the package "
+        "documents for its array-field routes (x polarised field, interaction -mu_x E(t)); y and "
+        "z components of the dipole operator vanish in the alphabet; time-varying fields (pulse, "
+        "step) carry the class R clauses only, because the package does not state at which end of "
+        "a step the field sample is taken; |mu E| dt <= %g; the LabSetup / EField-object routes "
+        "are not in the alphabet" % FIELD_AMP,
         "laboratory-frame reference of an admissible RWA Lindblad case: powers of expm(L_lab dt) "
         "(constant generators; cross-checked against the rotating-frame reference carried to the "
         "laboratory frame) or the carried rotating-frame Magnus reference (Gaussian dephasing)",
@@ -1748,6 +1942,8 @@ def run(run):
                                            if run.tier == "quick" else
                                            (", dim 3 with rwa off/ge)",
                                             "all (dim 2), rate set a (dim 3)"))},
+                  "field": {"kinds": list(FIELD_KINDS), "dipoles": list(FIELD_DIPS),
+                            "|mu E| dt": FIELD_AMP, "nref": [1]},
                   "cases": len(cs)}
     infos = run_grid(run, cs, eval_case)
     worst, unb, secs = {}, {}, {}
